@@ -269,7 +269,7 @@ PARTS = [
          rule="exhaustive: every bit string of length 0..12 x M in {2..256}"),
     Part("hdd", e_hdd, kind="enum", enum=enum_hdd, shards=16, quick_shards=4, exhaustive=True,
          rule="exhaustive: every slot pattern of <=12 (quick) / <=16 (thorough) slots for M in {2,4,8} under numpy seeds 0,1,12345"),
-    Part("long", e_long, s_long(), quick=800, thorough=5000, shards=8, rule="non-trivial: >=2 symbols, both bit values present"),
-    Part("sdd", e_sdd, s_sdd(), quick=1000, thorough=6000, shards=8, rule="non-trivial: >=2 symbols"),
-    Part("reject", e_rej, s_rej, quick=300, thorough=2000, shards=2, rule="orders that are not powers of two; partial symbols"),
+    Part("long", e_long, s_long(), quick=800, thorough=30000, shards=8, rule="non-trivial: >=2 symbols, both bit values present"),
+    Part("sdd", e_sdd, s_sdd(), quick=1000, thorough=36000, shards=8, rule="non-trivial: >=2 symbols"),
+    Part("reject", e_rej, s_rej, quick=300, thorough=12000, shards=2, rule="orders that are not powers of two; partial symbols"),
 ]
